@@ -68,7 +68,11 @@ theorem bwinv_step {c : DrawCfg} {wd : World} (inv : WInv c wd) (bi : BWInv c wd
   | showCursor x y => exact ⟨bi.b.congr rfl rfl rfl rfl rfl, bi.tty⟩
   | setCursorStyle cs cc => exact ⟨{ buf := bi.b.buf, style := bi.b.style, size := bi.b.size, ccol := hb }, bi.tty⟩
   | lockRegion x y w h lock =>
-    exact ⟨{ buf := bi.b.buf.lockRows x y w lock _, style := bi.b.style, size := bi.b.size, ccol := bi.b.ccol }, bi.tty⟩
+    refine ⟨{ buf := ?_, style := bi.b.style, size := bi.b.size, ccol := bi.b.ccol }, bi.tty⟩
+    show BufB c.rw (if c.guardLocked then lockRowsG wd.sw.s.cells x y w lock h.toNat else lockRows wd.sw.s.cells x y w lock h.toNat)
+    split
+    · exact bi.b.buf.lockRowsG x y w lock _
+    · exact bi.b.buf.lockRows x y w lock _
   | «show» =>
     have e : (wd.step c .show).sw = { wd.sw with s := ((wd.sw.s.resize (some (wd.sw.ttyw, wd.sw.ttyh))).draw c).1 } := by
       simp only [World.step, ScrW.step, Scr.show, hf, Bool.false_eq_true, if_false]; split <;> rfl
@@ -133,7 +137,7 @@ structure CfgB (c : DrawCfg) (rc : RenderCfg) : Prop where
   rwOk : RwOk c.rw
   rwB : RwB c.rw
   pay : Utf8Payload c
-  noCorner : c.cornerTrick = false
+  noCorner : c.Plain
   hide : c.hasHide = true
   fx : CapsFx c rc
 
